@@ -28,6 +28,65 @@ def signers(path):
             ('PycryptodomeAuthSigner', lambda: PycryptodomeAuthSigner(path))]
 
 
+def shared_signer_threads(ctx, path, n, e, rng):
+    """One signer object used by two threads with different tokens, every line-level interleaving of Sign() (and what it calls
+    inside adb_shell.auth): each thread must get the signature of its own token."""
+    import sys
+    import threading
+    from .. import sched
+    for (name, make) in signers(path):
+        signer = make()
+        toks = {'A': bytes([1]) * 20, 'B': bytes([2]) * 20}
+        mod_prefix = os.path.join(env.REPO, 'adb_shell', 'auth')
+
+        def run(schedule):
+            s = sched.ThreadSched()
+            res = {}
+
+            def tracer(frame, event, arg):
+                if frame.f_code.co_filename.startswith(mod_prefix):
+                    def local(fr, ev, a):
+                        if ev == 'line':
+                            s.boundary('line', lambda: True)
+                        return local
+                    return local
+                return None
+            for nm in ('A', 'B'):
+                def body(nm=nm):
+                    sys.settrace(tracer)
+                    try:
+                        res[nm] = bytes(signer.Sign(toks[nm]))
+                    finally:
+                        sys.settrace(None)
+                s.spawn(nm, body)
+            fan, i = [], 0
+            while True:
+                en = [k for k, r in s.th.items() if not r.done and r.runnable()]
+                if not en:
+                    break
+                c = min(schedule[i], len(en) - 1) if i < len(schedule) else 0
+                fan.append(len(en))
+                s.step(en[c])
+                i += 1
+            s.kill()
+            return res, fan
+        stack, n_sched = [[]], 0
+        while stack and n_sched < (200 if ctx.quick else 3000):
+            pre = stack.pop()
+            res, fan = run(pre)
+            n_sched += 1
+            for nm in ('A', 'B'):
+                if rsaproj.recover_token(res.get(nm, b''), n, e) != toks[nm]:
+                    ctx.violation('C17.SignerSound', dict(kind='one signer shared by two threads', signer=name, thread=nm, schedule=pre))
+                    stack = []
+                    break
+            for i in range(len(pre), len(fan)):
+                for c in range(1, fan[i]):
+                    stack.append((pre + [0] * (i - len(pre)))[:i] + [c])
+        ctx.count(evaluations=n_sched)
+        ctx.extra.setdefault('shared_signer_schedules', {})[name] = n_sched
+
+
 def handshake(mode, dev, signer, tokens, seed):
     """One connect(); returns the TraceAuth trace and the outcome."""
     sess = env.Session(mode, dev, log_io=True, banner=b'verif-host')
@@ -125,6 +184,31 @@ def body(ctx):
                             sigs[name] = bytes(signer.Sign(cmp_token))
                     if ctx.violations and len(ctx.violations) > 8:
                         break
+            # boundary: a token whose signature has a leading zero byte (about 1 in 256) - the signature must still be 256 bytes
+            n_, e_, d_ = rsaproj.private_numbers_of_pem(path)
+            btok = None
+            for t_ in range(3000):
+                cand = rng.getrandbits(160).to_bytes(20, 'big')
+                if rsaproj.reference_signature(cand, n_, d_)[0] == 0:
+                    btok = cand
+                    break
+            if btok is not None:
+                for (name, make) in signers(path):
+                    sg = bytes(make().Sign(btok))
+                    ctx.count(evaluations=1)
+                    if rsaproj.recover_token(sg, n, e) != btok:
+                        ctx.violation('C17.SignerSound', dict(kind='boundary token (signature with a leading zero byte)', signer=name, key=ki, token=btok.hex(), signature_length=len(sg)))
+            ctx.extra.setdefault('boundary_tokens_found', 0)
+            ctx.extra['boundary_tokens_found'] += 1 if btok is not None else 0
+            # key rotation: keygen again at the same path - the public key file must belong to the new private key
+            keygen.keygen(path)
+            n2, e2 = rsaproj.public_numbers_of_pem(path)
+            d2 = rsaproj.decode_blob(open(path + '.pub', 'rb').read())
+            ctx.count(evaluations=1)
+            if not (d2['ok'] and d2['n'] == n2 and d2['e'] == e2):
+                ctx.violation('C17.PubFileSound', dict(kind='keygen twice at the same path', key=ki, why=d2.get('why') or 'the .pub file does not belong to the regenerated private key'))
+            if ki == 0:
+                shared_signer_threads(ctx, path, n2, e2, rng)
             # interchangeable: PKCS#1 v1.5 is deterministic, so the three classes must produce the same bytes
             ref = sigs.get('PythonRSASigner')
             for name, sg in sigs.items():
